@@ -1,6 +1,10 @@
 package odt
 
-import "encoding/xml"
+import (
+	"encoding/xml"
+	"strconv"
+	"strings"
+)
 
 // ODF XML namespaces
 const (
@@ -43,19 +47,17 @@ type bodyElement struct {
 
 // paragraphXML represents a paragraph element (<text:p>).
 type paragraphXML struct {
-	XMLName   xml.Name  `xml:"p"`
-	StyleName string    `xml:"style-name,attr"`
-	Spans     []spanXML `xml:"span"`
-	Text      string    `xml:",chardata"`
+	XMLName   xml.Name
+	StyleName string
+	Content   []inlineXML // inline content in document order
 }
 
 // headingXML represents a heading element (<text:h>).
 type headingXML struct {
-	XMLName      xml.Name  `xml:"h"`
-	StyleName    string    `xml:"style-name,attr"`
-	OutlineLevel string    `xml:"outline-level,attr"`
-	Spans        []spanXML `xml:"span"`
-	Text         string    `xml:",chardata"`
+	XMLName      xml.Name
+	StyleName    string
+	OutlineLevel string
+	Content      []inlineXML // inline content in document order
 }
 
 // spanXML represents a text span with formatting (<text:span>).
@@ -63,6 +65,109 @@ type spanXML struct {
 	XMLName   xml.Name `xml:"span"`
 	StyleName string   `xml:"style-name,attr"`
 	Text      string   `xml:",chardata"`
+}
+
+// inlineXML is one piece of the inline content of a paragraph or heading:
+// direct character data (Span is nil) or a formatted span.
+type inlineXML struct {
+	Text string
+	Span *spanXML
+}
+
+// UnmarshalXML decodes a paragraph, keeping its inline content in document order.
+func (p *paragraphXML) UnmarshalXML(d *xml.Decoder, start xml.StartElement) error {
+	p.XMLName = start.Name
+	p.StyleName = attrValue(start, "style-name")
+	var err error
+	p.Content, err = decodeInlineContent(d)
+	return err
+}
+
+// UnmarshalXML decodes a heading, keeping its inline content in document order.
+func (h *headingXML) UnmarshalXML(d *xml.Decoder, start xml.StartElement) error {
+	h.XMLName = start.Name
+	h.StyleName = attrValue(start, "style-name")
+	h.OutlineLevel = attrValue(start, "outline-level")
+	var err error
+	h.Content, err = decodeInlineContent(d)
+	return err
+}
+
+// attrValue returns the value of the attribute with the given local name.
+func attrValue(start xml.StartElement, local string) string {
+	for _, a := range start.Attr {
+		if a.Name.Local == local {
+			return a.Value
+		}
+	}
+	return ""
+}
+
+// decodeInlineContent reads the children of a paragraph-like element up to its
+// end tag: character data, spans, and the whitespace elements <text:s>,
+// <text:tab> and <text:line-break>, in document order. Hyperlinks (<text:a>)
+// are transparent; other children are skipped.
+func decodeInlineContent(d *xml.Decoder) ([]inlineXML, error) {
+	var content []inlineXML
+	depth := 0
+	for {
+		tok, err := d.Token()
+		if err != nil {
+			return content, err
+		}
+		switch el := tok.(type) {
+		case xml.CharData:
+			content = append(content, inlineXML{Text: string(el)})
+		case xml.StartElement:
+			switch el.Name.Local {
+			case "span":
+				span := new(spanXML)
+				err = d.DecodeElement(span, &el)
+				content = append(content, inlineXML{Span: span})
+			case "s":
+				n, convErr := strconv.Atoi(attrValue(el, "c"))
+				if convErr != nil || n < 1 {
+					n = 1
+				}
+				if n > 1024 {
+					n = 1024
+				}
+				content = append(content, inlineXML{Text: strings.Repeat(" ", n)})
+				err = d.Skip()
+			case "tab":
+				content = append(content, inlineXML{Text: "\t"})
+				err = d.Skip()
+			case "line-break":
+				content = append(content, inlineXML{Text: "\n"})
+				err = d.Skip()
+			case "a":
+				depth++
+			default:
+				err = d.Skip()
+			}
+			if err != nil {
+				return content, err
+			}
+		case xml.EndElement:
+			if depth == 0 {
+				return content, nil
+			}
+			depth--
+		}
+	}
+}
+
+// inlineText returns the text of inline content in document order.
+func inlineText(content []inlineXML) string {
+	var sb strings.Builder
+	for _, c := range content {
+		if c.Span != nil {
+			sb.WriteString(c.Span.Text)
+		} else {
+			sb.WriteString(c.Text)
+		}
+	}
+	return sb.String()
 }
 
 // listXML represents a list (<text:list>).
